@@ -131,9 +131,10 @@ fn scenario(pr: &Params) -> Verdict {
     let got2 = got.clone();
     let parked = std::rc::Rc::new(std::cell::Cell::new(false));
     let parked2 = parked.clone();
+    let n_expected = pr.peers * (pr.msgs + 1);
     world::spawn_app("receiver", async move {
         let mut sock = sock;
-        for _ in 0..40 {
+        for _ in 0..(40 + n_expected) {
             match world::until_idle(sock.recv()).await {
                 Some(r) => {
                     world::log(format!("recv -> {}", e3::show_result(&r)));
@@ -149,7 +150,7 @@ fn scenario(pr: &Params) -> Verdict {
         world::wait_cond("never").await;
         drop(sock);
     });
-    let end = world::run(e3::HORIZON);
+    let end = world::run(e3::HORIZON * (1 + pr.peers as u64 / 4));
     let mut v = Verdict::default();
     v.truncated = end != world::RunEnd::Quiescent;
     let what = format!("{} socket, {} peers x {} messages{}{}", ty.name(), pr.peers, pr.msgs, if pr.truncated_peer { ", last peer cut mid-message" } else { "" }, if pr.split { ", split deliveries" } else { "" });
@@ -173,9 +174,9 @@ fn scenario(pr: &Params) -> Verdict {
                 let owner = frames.iter().find_map(|f| {
                     let pos = f.windows(1).position(|w| w == b"p")?;
                     let rest = &f[pos + 1..];
-                    let d = rest.first()?;
-                    if d.is_ascii_digit() && rest.get(1) == Some(&b'm') {
-                        Some((d - b'0') as usize)
+                    let nd = rest.iter().take_while(|d| d.is_ascii_digit()).count();
+                    if nd >= 1 && rest.get(nd) == Some(&b'm') {
+                        std::str::from_utf8(&rest[..nd]).ok()?.parse::<usize>().ok()
                     } else {
                         None
                     }
@@ -242,6 +243,129 @@ fn scenario(pr: &Params) -> Verdict {
     e3::finish(v)
 }
 
+/// Generations family: a peer with an announced identity connects, sends, ends its connection (cleanly or with a
+/// reset) and connects again under the same identity - three lives in a row, next to a peer that stays. The end of
+/// a life is either observed by the receiver (it is parked in recv when it happens) before the next life starts,
+/// or not. Every message of every life must be delivered, per life in order, exactly once.
+fn generations_scenario(ty: Ty, reset: bool, observed: bool, policy: u8) -> Verdict {
+    world::reset(world::WorldCfg { nested_env: true, yields: true, select: false, policy, coop: false });
+    let lives = 3usize;
+    let mut conns: Vec<e3::RawConn> = Vec::new();
+    let mut want: Vec<Vec<Vec<u8>>> = Vec::new();
+    let body = |g: usize, j: usize| -> Vec<Vec<u8>> {
+        let tag = format!("g{}m{}", g, j).into_bytes();
+        match ty {
+            Ty::Rep => vec![vec![], tag],
+            Ty::XPub => {
+                let mut f = vec![1u8];
+                f.extend(tag);
+                vec![f]
+            }
+            _ => vec![tag, vec![], b"x".to_vec()],
+        }
+    };
+    for g in 0..lives {
+        let c = e3::raw_conn(&format!("A{}", g));
+        if g > 0 {
+            c.gate(&format!("life{}", g));
+        }
+        c.send(&rc::handshake(ty.peer_type(), Some(b"A")));
+        for j in 0..2 {
+            let m = body(g, j);
+            c.send(&rc::encode_message(&m));
+            let exp: Vec<Vec<u8>> = match ty {
+                Ty::Rep => m[1..].to_vec(),
+                Ty::Router => {
+                    let mut e = vec![b"A".to_vec()];
+                    e.extend(m.clone());
+                    e
+                }
+                _ => m.clone(),
+            };
+            want.push(exp);
+        }
+        if g + 1 < lives {
+            if reset {
+                world::push_chunk(c.to_lib, world::Chunk::Err(std::io::ErrorKind::ConnectionReset));
+            } else {
+                c.eof();
+            }
+        }
+        conns.push(c);
+    }
+    let stay = e3::raw_conn("B");
+    stay.send(&rc::handshake(ty.peer_type(), Some(b"B")));
+    let sock = AnySocket::new(ty, None);
+    let be = sock.backend();
+    for (g, c) in conns.iter().enumerate() {
+        let (be, c) = (be.clone(), *c);
+        world::spawn_app(&format!("attachA{}", g), async move {
+            let r = e3::attach_raw(be, c).await;
+            world::log(format!("attach(A life {}) -> {}", g, e3::ok_or_err(&r)));
+        });
+    }
+    {
+        let be = be.clone();
+        world::spawn_app("attachB", async move {
+            let _ = e3::attach_raw(be, stay).await;
+        });
+    }
+    let got = std::rc::Rc::new(std::cell::RefCell::new(Vec::<Vec<Vec<u8>>>::new()));
+    let got2 = got.clone();
+    world::spawn_app("receiver", async move {
+        let mut sock = sock;
+        sock.subscribe_all().await;
+        let mut next_life = 1usize;
+        for _ in 0..40 {
+            // REP owes a reply after each request
+            let r = world::until_idle(sock.recv()).await;
+            match r {
+                Some(Ok(m)) => {
+                    got2.borrow_mut().push(crate::e1::frames_of(&m));
+                    if ty == Ty::Rep {
+                        let _ = world::until_idle(sock.send(crate::e1::msg(&[b"re".to_vec()]))).await;
+                    }
+                    if !observed && got2.borrow().len() == 2 * next_life && next_life < lives {
+                        // the next life starts as soon as this one's messages are in, before its end has been seen
+                        world::set_cond(&format!("life{}", next_life));
+                        next_life += 1;
+                    }
+                }
+                Some(Err(e)) => world::log(format!("recv -> Err({})", e3::err_class(&e))),
+                None => {
+                    // parked with nothing left to happen: the end of the current life has been observed
+                    if next_life < lives {
+                        world::set_cond(&format!("life{}", next_life));
+                        next_life += 1;
+                    } else {
+                        break;
+                    }
+                }
+            }
+        }
+        world::set_cond("done");
+        world::wait_cond("never").await;
+        drop(sock);
+    });
+    let end = world::run(e3::HORIZON * 2);
+    let mut v = Verdict::default();
+    v.truncated = end != world::RunEnd::Quiescent;
+    let what = format!("{} socket, a peer with identity A living three lives ({} between them, {} by the receiver before the next life starts) next to a peer that stays", ty.name(), if reset { "connection reset" } else { "clean close" }, if observed { "observed" } else { "not yet observed" });
+    for p in world::panics() {
+        v.violate("panic", format!("{}: {}", what, p));
+    }
+    if v.truncated {
+        v.violate("spin", format!("{}: no quiescence", what));
+    }
+    let got = got.borrow().clone();
+    if world::panics().is_empty() && !v.truncated && got != want {
+        let class = if got.len() < want.len() { "generations/message-of-a-reconnected-peer-lost" } else if got.len() > want.len() { "generations/duplicated" } else { "generations/reordered-or-modified" };
+        v.violate(class, format!("{}: recv returned {:?}; the peer sent {:?}", what, got.iter().map(|m| rc::show_frames(m)).collect::<Vec<_>>(), want.iter().map(|m| rc::show_frames(m)).collect::<Vec<_>>()));
+    }
+    v.outcome_hash = rc::fnv(format!("{:?}", got).as_bytes()) ^ rc::fnv(e3::canon_log().join("|").as_bytes());
+    e3::finish(v)
+}
+
 fn params_json(p: &Params) -> serde_json::Value {
     json!({"type": p.ty.name(), "peers": p.peers, "msgs": p.msgs, "truncated_peer": p.truncated_peer, "split": p.split, "policy": p.policy, "coop": p.coop})
 }
@@ -288,11 +412,40 @@ pub fn socket_jobs(tier: Tier) -> Vec<zvcore::explore::Job> {
             ));
         }
     }
+    for ty in [Ty::Pull, Ty::Sub, Ty::Dealer, Ty::Router, Ty::Rep, Ty::XPub] {
+        for reset in [false, true] {
+            for observed in [true, false] {
+                for policy in 0..3u8 {
+                    jobs.push(e3::job(
+                        format!("C05/generations/{}/{}/{}/policy{}", ty.name(), if reset { "reset" } else { "close" }, if observed { "observed" } else { "unobserved" }, policy),
+                        json!({"scenario":"generations","type":ty.name(),"reset":reset,"observed":observed,"policy":policy}),
+                        tier.pick(1, 2),
+                        tier.pick(200_000, 2_000_000),
+                        move || generations_scenario(ty, reset, observed, policy),
+                    ));
+                }
+            }
+        }
+    }
+    // scale family (not exhaustive in n): many peers under the default schedules
+    for ty in [Ty::Pull, Ty::Sub, Ty::Dealer, Ty::Router, Ty::Rep, Ty::XPub] {
+        for &peers in tier.pick(&[17usize, 65, 130][..], &[17usize, 65, 130, 257, 520][..]) {
+            for (policy, coop) in [(0u8, false), (1, false), (2, false), (0, true)] {
+                let pr = Params { ty, peers, msgs: 2, truncated_peer: false, split: peers % 2 == 1, policy, coop };
+                let pr2 = pr.clone();
+                jobs.push(e3::job(format!("C05/scale/{}/{}peers/policy{}{}", ty.name(), peers, policy, if coop { "/coop" } else { "" }), params_json(&pr), 0, 1000, move || scenario(&pr2)));
+            }
+        }
+    }
     jobs
 }
 
 pub fn replay_socket(v: &serde_json::Value) -> i32 {
     crate::replay::replay_e3(v, |p| {
+        if p["scenario"] == "generations" {
+            let (ty, reset, observed, policy) = (Ty::from_name(p["type"].as_str()?)?, p["reset"].as_bool()?, p["observed"].as_bool()?, p["policy"].as_u64()? as u8);
+            return Some(std::sync::Arc::new(move || generations_scenario(ty, reset, observed, policy)) as zvcore::explore::Scenario);
+        }
         let pr = params_from(p)?;
         Some(std::sync::Arc::new(move || scenario(&pr)) as zvcore::explore::Scenario)
     })
@@ -306,10 +459,7 @@ pub fn run(tier: Tier, replay: Option<String>) -> i32 {
         if v["replay"]["engine"] == "E2" {
             return e2::replay_file(&v);
         }
-        return crate::replay::replay_e3(&v, |p| {
-            let pr = params_from(p)?;
-            Some(std::sync::Arc::new(move || scenario(&pr)) as zvcore::explore::Scenario)
-        });
+        return replay_socket(&v);
     }
     let thorough = tier == Tier::Thorough;
     e2::run_configs(&mut ck, e2::general_configs(thorough), is_c05_class);
@@ -320,7 +470,7 @@ pub fn run(tier: Tier, replay: Option<String>) -> i32 {
     let ex = ck.coverage.get("e3_executions").and_then(|v| v.as_u64()).unwrap_or(0);
     ck.cov("traces_validated_against_impl", tr + ex);
     ck.cov("exhaustive", ck.coverage.get("e2_all_fixpoints").and_then(|v| v.as_bool()).unwrap_or(false) && ck.coverage.get("e3_scenarios_capped").and_then(|v| v.as_u64()) == Some(0));
-    ck.cov("explanation", "E2: breadth-first search over event histories of the REAL FairQueue (see C06 for the event alphabet); on every transition: a delivered item is the next undelivered item of its stream (no duplicate, no loss, right key), an item handed out by a stream reaches the receiver, a live stream is never dropped, a closed stream's arrived items are delivered before it disappears. E3: 6 receiving socket types x peer/message/cut variants through the real attach+recv under every schedule within the deviation bound (scheduling order, library yield points, deliveries landing inside pipe reads): per peer, the projection of the recv results equals the reference decode of what that peer wrote (after the type's envelope rule), the message cut by a disconnect never surfaces, and nothing complete is left undelivered at quiescence with a recv pending.");
+    ck.cov("explanation", "E2: breadth-first search over event histories of the REAL FairQueue (see C06 for the event alphabet); on every transition: a delivered item is the next undelivered item of its stream (no duplicate, no loss, right key), an item handed out by a stream reaches the receiver, a live stream is never dropped, a closed stream's arrived items are delivered before it disappears. E3: 6 receiving socket types x peer/message/cut variants through the real attach+recv under every schedule within the deviation bound (scheduling order, library yield points, deliveries landing inside pipe reads): per peer, the projection of the recv results equals the reference decode of what that peer wrote (after the type's envelope rule), the message cut by a disconnect never surfaces, and nothing complete is left undelivered at quiescence with a recv pending. Generations family: a peer with an announced identity lives three lives (clean close or reset between them, observed by the receiver before the next life starts or not) next to a peer that stays: every message of every life is delivered, in order, once. Scale family (not exhaustive in n): the same oracle with 17 / 65 / 130 (thorough 257, 520) peers x 2 messages under the default schedules.");
     ck.assume("see C06 for the state-merging argument of E2");
     ck.assume("one poll between two yield points is atomic in E3; parallelism inside a poll is covered at the fair-queue level by E2's window events");
     ck.conclude()
